@@ -348,6 +348,101 @@ class PwlLayerInitCase(Case):
     return cl
 
 
+_CAT_BUILD_SCRIPT = """
+import numpy as np
+kw = args[0]
+ly = mod('categorical_calibration_layer')
+failing = []
+for seed in range(8):
+  tf.keras.utils.set_random_seed(seed)
+  layer = ly.CategoricalCalibration(**kw)
+  layer.build([None, kw.get('units', 1)])
+  a = np.asarray(layer.kernel.numpy(), dtype=float)
+  why = []
+  for (i, j) in kw.get('monotonicities') or []:
+    if (a[i] > a[j] + 1e-6).any():
+      why.append('output(%d) > output(%d)' % (i, j))
+  lo, hi = kw.get('output_min'), kw.get('output_max')
+  if lo is not None and (a < lo - 1e-6).any():
+    why.append('below output_min')
+  if hi is not None and (a > hi + 1e-6).any():
+    why.append('above output_max')
+  try:
+    with tf.control_dependencies(layer.assert_constraints(eps=1e-5)):
+      tf.identity(layer.kernel)
+  except Exception as e:
+    why.append('assert_constraints of the fresh layer fails: %s' % str(e).splitlines()[-1][:80])
+  if why:
+    failing.append('seed %d: kernel %s: %s' % (seed, a.ravel().round(4).tolist(), '; '.join(why)))
+    if len(failing) >= 2:
+      break
+result = failing
+"""
+
+
+class CatLayerInitCase(Case):
+  """CategoricalCalibration built with its own initializer ids ('uniform', 'constant', a Keras RandomUniform as the premade
+  models pass it): for EVERY outcome of the random initializer (tf.random.uniform under its contract: fresh values in
+  the range) the initial kernel satisfies the ordering pairs and the bounds, and the constraint leaves it unchanged.
+  The constraint's own call is used through its contract (C06)."""
+  contract_key = None
+  xcheck = False
+
+  @staticmethod
+  def _kw(cfg):
+    kw = dict(num_buckets=cfg['buckets'], units=cfg['units'], output_min=cfg.get('output_min'),
+              output_max=cfg.get('output_max'), monotonicities=[tuple(p) for p in cfg.get('pairs') or []] or None)
+    if cfg['init'] != 'premade':
+      kw['kernel_initializer'] = cfg['init']
+    return kw
+
+  def replay_desc(self, cfg, model, g):
+    kw = self._kw(cfg)
+    kw['monotonicities'] = [list(p) for p in kw['monotonicities'] or []] or None
+    if cfg['init'] == 'premade':
+      return None
+    return {'kind': 'script', 'code': _CAT_BUILD_SCRIPT, 'floatx': 'float32', 'args': [kw], 'kwargs': {}}
+
+  def replay_eval(self, cfg, model, g, desc, nat):
+    failing = ['building the layer raised ' + nat['error'][:200]] if 'error' in nat else list(nat.get('ok') or [])
+    return {'desc': {'kind': 'the real Keras layer built with these arguments under seeds 0..7', 'kwargs': desc['args'][0]},
+            'native': {k: v for k, v in nat.items() if k != 'trace'}, 'failing': failing}
+
+  def body(self, cfg, c):
+    ly = load.mod('categorical_calibration_layer')
+    import contracts.linear  # noqa: F401  (contract of CategoricalCalibrationConstraints.__call__)
+    kw = self._kw(cfg)
+    if cfg['init'] == 'premade':
+      # premade_lib passes RandomUniform(output_init_min, output_init_max): the bounds where given, else a default range
+      lo, hi = cfg.get('output_min'), cfg.get('output_max')
+      if lo is None and hi is None:
+        lo, hi = -1.0, 1.0
+      elif lo is None:
+        lo = hi - 2.0
+      elif hi is None:
+        hi = lo + 2.0
+      kw['kernel_initializer'] = ly.keras.initializers.RandomUniform(lo, hi)
+    with H.stubbed(only=('categorical_calibration_layer.CategoricalCalibrationConstraints.__call__',)):
+      layer = ly.CategoricalCalibration(**kw)
+      layer.build(tfc.TensorShape([None, cfg['units']]))
+      w = tfc.Tensor(layer.kernel.a, tfc.float32)
+      cl = []
+      for (i, j) in cfg.get('pairs') or []:
+        for u in range(cfg['units']):
+          cl.append(('initial-kernel-respects-pair[%d<=%d,u%d]' % (i, j, u), P.lift(w.a[i, u]) <= P.lift(w.a[j, u])))
+      for idx in np.ndindex(*w.a.shape):
+        if cfg.get('output_min') is not None:
+          cl.append(('initial-kernel>=output_min%s' % (list(idx),), P.lift(w.a[idx]) >= cfg['output_min']))
+        if cfg.get('output_max') is not None:
+          cl.append(('initial-kernel<=output_max%s' % (list(idx),), P.lift(w.a[idx]) <= cfg['output_max']))
+      cons = layer.kernel.constraint
+      if cons is not None:
+        out = cons(w)
+        for idx in np.ndindex(*w.a.shape):
+          cl.append(('constraint-leaves-initial-kernel-unchanged%s' % (list(idx),), P.lift(out.a[idx]).eq(P.lift(w.a[idx]))))
+    return cl
+
+
 class KflInitCase(Case):
   contract_key = None
   xcheck = False
@@ -411,7 +506,7 @@ class MappingCase(Case):
     return cl
 
 
-CASES = {'lattice': LatticeInitCase(), 'pwl': PwlInitCase(), 'pwl_layer': PwlLayerInitCase(),
+CASES = {'lattice': LatticeInitCase(), 'pwl': PwlInitCase(), 'pwl_layer': PwlLayerInitCase(), 'cat_layer': CatLayerInitCase(),
          'kfl': KflInitCase(), 'mapping': MappingCase()}
 
 
@@ -471,6 +566,14 @@ def configs(tier, rng):
       for (lo, hi) in ((None, None), (0.0, 1.0), (-2.0, 3.0), (None, 2.0), (0.5, None), (None, -1.5), (-0.5, None), (2.0, 5.0)):
         jobs.append(('pwl_layer', dict(keypoints=kps, units=1 + len(kps) % 2, mono=mono, output_min=lo, output_max=hi,
                                        init='equal_heights', impute='flags' if mono == 1 else 'value')))
+  for (nb, units, pairs) in ((2, 1, [(0, 1)]), (3, 1, [(0, 1), (1, 2)]), (3, 2, [(2, 0)]), (4, 1, [(0, 1), (0, 2), (1, 3), (2, 3)]),
+                             (3, 1, []), (4, 2, [(0, 3), (1, 3)])):
+    for (lo, hi) in ((None, None), (0.0, 1.0), (-2.0, 3.0), (None, 2.0), (0.5, None), (None, -1.5)):
+      for init in ('uniform', 'constant', 'premade'):
+        if not pairs and lo is None and hi is None:
+          continue
+        jobs.append(('cat_layer', dict(buckets=nb, units=units, pairs=[list(p) for p in pairs], output_min=lo, output_max=hi,
+                                       init=init)))
   for (L, U, D, T) in ((2, 1, 1, 1), (2, 1, 2, 2), (3, 2, 2, 1), (3, 1, 2, 2), (2, 2, 1, 3)):
     for monos in (None, [1] * D, [1] + [0] * (D - 1)):
       for (lo, hi) in ((None, None), (0.0, 1.0), (-1.0, 2.0), (None, 2.0), (0.5, None)):
